@@ -1296,15 +1296,22 @@ class CausalGraph(HasIdentifier, HasMetadata, CanDictSerialize, CanDictDeseriali
                 'or provide a constructed `Edge` object using the `edge` parameter.'
             )
 
-        source_node, destination_node = self._prepare_nodes(source, destination)
+        existing_nodes = set(self._nodes_by_identifier)
+        try:
+            source_node, destination_node = self._prepare_nodes(source, destination)
 
-        edge = self._EdgeCls(source_node, destination_node, edge_type=edge_type)
+            edge = self._EdgeCls(source_node, destination_node, edge_type=edge_type)
 
-        # Add any meta
-        if meta is not None:
-            edge.meta = meta
+            # Add any meta
+            if meta is not None:
+                edge.meta = meta
 
-        self._set_edge(edge=edge, validate=validate)
+            self._set_edge(edge=edge, validate=validate)
+        except Exception:
+            # remove any nodes that were implicitly added before the edge was rejected
+            for identifier in set(self._nodes_by_identifier) - existing_nodes:
+                self.delete_node(identifier)
+            raise
         return edge
 
     @reset_cached_attributes_decorator
